@@ -2,19 +2,26 @@
    class whose outer class is absent, a class without target name, a constructor, a static initialiser and
    an identity-mapped method (both keep their target names), a parameter with a comment, comments with blank lines, leading spaces and `#`, packages: it satisfies the
    hypotheses of every theorem, and the round trip is computed on it. *)
-From FB Require Import C12.Model C12.TheoryTree C12.TheoryDet C12.TheoryRT.
+From FB Require Import C12.Model C12.ModelForest C12.TheoryTree C12.TheoryLines C12.TheoryDet C12.TheoryRT C12.TheoryExact C12.TheoryDir.
 
 Definition ex_classes : list class :=
   [ mkClass [Some [97; 47; 65]; Some [98; 47; 66]] (Some [104; 105; 10; 10; 32; 32; 35; 32; 120])   (* a/A -> b/B, "hi\n\n  # x" *)
-      [mkField [73] [Some [102]; Some [103]] (Some [102; 100]); mkField [74] [Some [102]; None] None]
+      [mkField [73] [Some [102]; Some [103]] (Some [102; 100; 10]);                                   (* comment "fd\n": ends in a line break *)
+       mkField [74] [Some [102]; None] None]
       [mkMeth [40; 73; 41; 86] [Some s_init; Some s_init] None
-         [mkParam 1 [None; Some [112]] (Some [100; 10; 101])];
+         [mkParam 1 [None; Some [112]] (Some [100; 10; 101]);
+          mkParam 2 [None; Some [113]] (Some []);                                                    (* the empty comment on a parameter *)
+          mkParam 3 [None; Some [114]] (Some [10; 10])];                                             (* nothing but two line breaks *)
        mkMeth [40; 41; 86] [Some [109]; Some [110]] (Some [35]) [];
-       mkMeth [40; 41; 86] [Some s_clinit; Some s_clinit] None [];             (* <clinit> -> <clinit>: keeps its target *)
+       mkMeth [40; 41; 86] [Some s_clinit; Some s_clinit] (Some [10]) [];      (* <clinit> -> <clinit>: keeps its target; comment "\n" *)
        mkMeth [40; 41; 73] [Some [109]; Some [109]] None []];                  (* m -> m, identity-mapped *)
     mkClass [Some [97; 47; 65; 36; 67]; Some [98; 47; 66; 36; 68]] None [] [];                        (* a/A$C -> b/B$D *)
-    mkClass [Some [97; 47; 65; 36; 67; 36; 49]; None] (Some []) [] [];                               (* a/A$C$1, no target *)
-    mkClass [Some [88; 36; 89]; Some [90; 36; 87]] None [] [] ].                                     (* X$Y -> Z$W, X absent *)
+    mkClass [Some [97; 47; 65; 36; 67; 36; 49]; None] (Some []) [] [];                               (* a/A$C$1, no target, empty comment *)
+    mkClass [Some [88; 36; 89]; Some [90; 36; 87]] None [] [];                                       (* X$Y -> Z$W, X absent *)
+    mkClass [Some [81]; Some [81; 100]] None [] [];                                                  (* Q -> Qd *)
+    mkClass [Some [81; 36; 82; 36; 83]; Some [102; 97; 114; 47; 65; 119; 97; 121]] (Some [120; 10]) [] [] ].  (* Q$R$S -> far/Away: Q$R absent, Q present *)
+
+Definition ex_QRS : class := mkClass [Some [81; 36; 82; 36; 83]; Some [102; 97; 114; 47; 65; 119; 97; 121]] (Some [120; 10]) [] [].
 
 Definition nonvacuous : Prop :=
   enigma_okb ex_classes = true /\ dir_okb ex_classes = true /\ keys_ok ex_classes
@@ -27,7 +34,64 @@ Definition nonvacuous : Prop :=
       | Err => False
       end)
   /\ chain_depth ex_classes [97; 47; 65; 36; 67; 36; 49] = 2%nat
-  /\ chain_depth ex_classes [88; 36; 89] = 0%nat.
+  /\ chain_depth ex_classes [88; 36; 89] = 0%nat
+  (* the class two levels below Q whose direct outer class Q$R is absent: own file, depth 0, full names *)
+  /\ chain_depth ex_classes [81; 36; 82; 36; 83] = 0%nat
+  /\ parent_in ex_classes ex_QRS = None
+  /\ write_one ex_classes [102; 97; 114; 47; 65; 119; 97; 121]
+       = Ok (class_line 0 [81; 36; 82; 36; 83] (Some [102; 97; 114; 47; 65; 119; 97; 121]) ++ [cLF]
+             ++ (cTAB :: s_COMMENT ++ [cSP; 120; cLF]) ++ (cTAB :: s_COMMENT ++ [cSP; cLF])).
+
+(* texts for the reader theorems *)
+Definition t_nested : str :=   (* CLASS A B / \tCLASS C / \t\tFIELD x I / \tFIELD y J / CLASS D *)
+  s_CLASS ++ [32; 65; 32; 66; 10; 9] ++ s_CLASS ++ [32; 67; 10; 9; 9] ++ s_FIELD ++ [32; 120; 32; 73; 10; 9]
+  ++ s_FIELD ++ [32; 121; 32; 74; 10] ++ s_CLASS ++ [32; 68; 10].
+Definition t_dup : str := s_CLASS ++ [32; 65; 10] ++ s_CLASS ++ [32; 65; 10].                 (* CLASS A twice *)
+Definition t_dup_nested : str :=                                                             (* CLASS A / \tCLASS B / CLASS A$B *)
+  s_CLASS ++ [32; 65; 10; 9] ++ s_CLASS ++ [32; 66; 10] ++ s_CLASS ++ [32; 65; 36; 66; 10].
+Definition t_jump : str := s_CLASS ++ [32; 65; 10; 9; 9] ++ s_FIELD ++ [32; 120; 32; 73; 10].  (* indentation jumps by two *)
+Definition t_unknown : str := s_CLASS ++ [32; 65; 10; 9; 70; 79; 79; 32; 120; 10].           (* unknown tag FOO below CLASS *)
+
+Definition long_name (n : nat) : str := repeat 120 n.
+
+Definition nonvacuous2 : Prop :=
+  (* the reader decodes structurally: the nested class comes first, under the joined names, members stay with their class *)
+  read_all t_nested = Ok [ mkClass [Some [65; 36; 67]; None] None [mkField [73] [Some [120]; None] None] [];
+                           mkClass [Some [65]; Some [66]] None [mkField [74] [Some [121]; None] None] [];
+                           mkClass [Some [68]; None] None [] [] ]
+  /\ (exists f, forest_of (elines t_nested) = Some f /\ shape_root f = true /\ depth_ok 0 f)
+  /\ read_all t_dup = Err /\ read_all t_dup_nested = Err /\ read_all t_unknown = Err
+  /\ forest_of (elines t_jump) = None /\ read_all t_jump = Err
+  (* the file system's limits: a name of 247 bytes fits (with `.mapping` it is 255 bytes), 248 do not; NUL is refused;
+     the stream writer is not concerned *)
+  /\ fs_okb ex_classes = true
+  /\ is_ok (write_dir [mkClass [Some (long_name 247); None] None [] []]) = true
+  /\ write_dir [mkClass [Some (long_name 248); None] None [] []] = Err
+  /\ is_ok (write_all [mkClass [Some (long_name 248); None] None [] []]) = true
+  /\ write_dir [mkClass [Some [65; 0; 66]; None] None [] []] = Err
+  (* path_inside tells paths apart *)
+  /\ path_inside [97; 47; 98; 46; 109] = true /\ path_inside [46; 46; 47; 120] = false
+  /\ path_inside [47; 97] = false /\ path_inside [97; 47; 46; 47; 98] = false
+  (* a file name with `.` or a leading `/` (only through the unchecked constructors) is refused by the directory writer *)
+  /\ write_dir [mkClass [Some [65]; Some [46; 46; 47; 120]] None [] []] = Err
+  /\ write_dir [mkClass [Some [65]; Some [47; 116; 109; 112; 47; 120]] None [] []] = Err
+  (* reading: a missing path, a single file, bytes that are not UTF-8 *)
+  /\ read_path NoSuchPath = Err
+  /\ read_path (PlainFile [120; 46; 109; 97; 112; 112; 105; 110; 103] t_dup) = Err
+  /\ read_path (PlainFile [120; 46; 116; 120; 116] t_dup) = Ok []
+  /\ read_bytes [] (s_CLASS ++ [32; 65; 10]) = Ok [mkClass [Some [65]; None] None [] []]
+  /\ read_bytes [] (s_CLASS ++ [32; 195; 169; 10]) = Ok [mkClass [Some [233]; None] None [] []]
+  /\ read_bytes [] (s_CLASS ++ [32; 65; 255; 10]) = Err
+  /\ read_bytes [] (s_CLASS ++ [32; 237; 160; 128; 10]) = Err
+  (* the comment hypothesis (no TAB, VT, FF, CR) is not vacuous caution: the format has no escapes, a TAB inside a comment
+     is a token separator for the reader and comes back as ONE SPACE — `a<TAB>b` is read back as `a b` *)
+  (* the key hypothesis of the duplicate theorems holds of the empty mappings and of the example set *)
+  /\ strict_keys [] /\ keys_nodup ex_classes
+  /\ docb (Some [97; 9; 98]) = false
+  /\ (match write_all [mkClass [Some [65]; None] (Some [97; 9; 98]) [] []] with
+      | Ok t => read_all t = Ok [mkClass [Some [65]; None] (Some [97; 32; 98]) [] []]
+      | Err => False
+      end).
 
 Lemma nodup_dec_str (l : list (list N * list N)) : nodupb key2_eqb l = true -> NoDup l.
 Proof. apply TheoryClass.nodupb_key2_NoDup. Qed.
@@ -42,5 +106,16 @@ Proof.
     + repeat (apply Forall_cons;
         [split; [cbn; nd|split; [cbn; nd|repeat (apply Forall_cons; [unfold meth_keys_ok; cbn; nd|]); apply Forall_nil]]|]);
       apply Forall_nil.
-  - split; [|split; reflexivity]. vm_compute. split; [reflexivity|discriminate].
+  - split; [|repeat split; vm_compute; reflexivity]. vm_compute. split; [reflexivity|discriminate].
+Qed.
+
+Lemma nonvacuous2_holds : nonvacuous2.
+Proof.
+  unfold nonvacuous2. split; [vm_compute; reflexivity|]. split.
+  - destruct (forest_of (elines t_nested)) as [f|] eqn:E; [|vm_compute in E; discriminate].
+    exists f. split; [reflexivity|]. assert (E' := E). apply forest_of_sound in E' as (_ & D).
+    split; [|exact D]. vm_compute in E. injection E as <-. reflexivity.
+  - repeat split; try (vm_compute; reflexivity);
+      try (match goal with |- keys_nodup [] => constructor | |- Forall _ [] => constructor end).
+    apply nodupb_str_NoDup. vm_compute. reflexivity.
 Qed.
